@@ -3,6 +3,7 @@
 package arp
 
 import (
+	"encoding/binary"
 	"fmt"
 	"net"
 
@@ -63,8 +64,9 @@ func (s *ScanMethod) ProcessPacketData(data []byte, _ *gopacket.CaptureInfo) err
 	if len(s.rcvDecoded) != 2 || s.rcvDecoded[1] != layers.LayerTypeARP {
 		return nil
 	}
-	// only ARP for IPv4 over Ethernet carries a 6-byte MAC and a 4-byte IP address
-	if s.rcvARP.AddrType != layers.LinkTypeEthernet || s.rcvARP.Protocol != layers.EthernetTypeIPv4 ||
+	// only ARP for IPv4 over Ethernet carries a 6-byte MAC and a 4-byte IP address;
+	// the hardware type is read from the packet: gopacket keeps only its low byte in AddrType
+	if binary.BigEndian.Uint16(s.rcvARP.Contents) != uint16(layers.LinkTypeEthernet) || s.rcvARP.Protocol != layers.EthernetTypeIPv4 ||
 		s.rcvARP.HwAddressSize != 6 || s.rcvARP.ProtAddressSize != 4 {
 		return nil
 	}
